@@ -34,6 +34,11 @@ def eval_images_add(pre, arch):
         im.add(v, a, objs[i])
     before = B.observe(im)["cells"]
     r = call(im.add, "Server", arch, objs[2])
+    if r[0] != "ok":
+        r2 = call(im.add, "Server", arch, objs[2])      # a refused call, repeated at once and once more with another image
+        r3 = call(im.add, "Server", arch, objs[1])
+        if r2[0] == "ok" or r3[0] == "ok":
+            r = ("exc", "refused the first time, accepted when repeated")
     after = B.observe(im)["cells"]
     return {"result": "ok" if r[0] == "ok" else r[1], "unchanged": before == after,
             "arch_keys": sorted({a for v in after for a in after[v]})}
@@ -49,6 +54,13 @@ def eval_rpms_add(pre, arch, srpm):
         res = call(r.add, "Server", arch, "bash-0:4.3-1.src", "Source/bash.src.rpm", "ABCD", "source")
     else:
         res = call(r.add, "Server", arch, "bash-doc-0:4.3-1.noarch", "Packages/b/bash-doc.rpm", "ABCD", "binary", "bash-0:4.3-1.src")
+    if res[0] != "ok":
+        # a refused call, repeated at once, and once more for another package
+        res2 = call(r.add, "Server", arch, "bash-0:4.3-1.src", "Source/bash.src.rpm", "ABCD", "source") if srpm else \
+            call(r.add, "Server", arch, "bash-doc-0:4.3-1.noarch", "Packages/b/bash-doc.rpm", "ABCD", "binary", "bash-0:4.3-1.src")
+        res3 = call(r.add, "Server", arch, "zsh-0:5.0-1.src", "Source/zsh.src.rpm", None, "source")
+        if res2[0] == "ok" or res3[0] == "ok":
+            res = ("exc", "refused the first time, accepted when repeated")
     return {"result": "ok" if res[0] == "ok" else res[1], "unchanged": before == r.rpms,
             "arch_keys": sorted({str(a) for v in r.rpms for a in r.rpms[v]})}
 
